@@ -439,8 +439,9 @@ def main():
         cases = []
         full = [(1, 0), (1, 3), (2, 0), (2, 1), (2, 4), (3, 2), (3, 3), (4, 2)] if args.tier == "quick" else \
             [(n, d) for n in range(1, 5) for d in range(0, 5)]
-        bare = [(1, 5), (2, 5), (3, 4), (4, 3), (5, 2), (5, 3), (6, 2)] if args.tier == "quick" else \
-            [(n, d) for n in range(1, 7) for d in range(0, 6) if not (n >= 5 and d >= 5)]
+        # (2, 11), (2, 13), (3, 10): hierarchy entries with two decimal digits
+        bare = [(1, 5), (2, 5), (3, 4), (4, 3), (5, 2), (5, 3), (6, 2), (2, 11), (2, 13), (3, 10)] if args.tier == "quick" else \
+            [(n, d) for n in range(1, 7) for d in range(0, 6) if not (n >= 5 and d >= 5)] + [(1, 12), (2, 11), (2, 13), (2, 21), (3, 10), (3, 12)]
         cases += [{"kind": "full", "N": n, "depth": d} for (n, d) in full]
         # the same tables through the public entry points of the open system (get_KTHierarchy / get_KTHierarchyPropagator)
         entry = [(2, 0), (2, 1), (2, 3), (3, 1), (3, 3)] if args.tier == "quick" else [(n, d) for n in range(1, 4) for d in range(0, 5)]
